@@ -44,6 +44,7 @@ MIN_REACH = {
     "crops_whose_path_contains_pattern_characters": {"quick": 20, "thorough": 200},
     "reloads_through_load_crops": {"quick": 10, "thorough": 100},
     "resows_refused_for_their_shape": {"quick": 50, "thorough": 600},
+    "crops_whose_function_is_not_saved": {"quick": 15, "thorough": 300},
     "pooled_grows_around_a_resow_that_replaced_the_function": {"quick": 12, "thorough": 200},
 }
 TIME_BUDGET = {"quick": 300, "thorough": 3000}
@@ -147,6 +148,12 @@ def run_case(ctx, case):
     rec.install()
     sig = {"api": "progress", "form": w["mode"], "batching": case["batching"]}
     ctor = {"shuffle": case["shuffle"]} if case["shuffle"] else {}
+    # the function is NOT saved with the crop (save_fn=False: it is handed to every grower explicitly); handles re-created
+    # from the name alone have no function at all - progress is still what is on disk
+    nosave = case["hseed"] % 7 == 3 and not case.get("default_parent")
+    if nosave:
+        ctor["save_fn"] = False
+        ctx.count("crops_whose_function_is_not_saved")
     if case["batching"] == "num_batches":
         ctor["num_batches"] = case["B"] if not case.get("over") else case["n"] + 1 + case["hseed"] % 3
     else:
@@ -233,7 +240,10 @@ def run_case(ctx, case):
 
     judge("sow", crop)
     hist = list(case["hist"])
-    if case["hseed"] % 6 == 1 and B >= 2:
+    if nosave:
+        hist = [{"grow": "grow_fn", "grow_subset": "grow_fn", "grow_missing": "grow_fn", "grow_unpicklable": "query", "resow": "reload",
+                 "resow_refused": "query"}.get(o_, o_) for o_ in hist]
+    if case["hseed"] % 6 == 1 and B >= 2 and not nosave:
         hist.insert(case["hseed"] % (len(hist) + 1), "resow_fn_pooled")
     for op in hist:
         if nviol:
@@ -258,7 +268,7 @@ def run_case(ctx, case):
                         # found by looking for crops in that directory (from wherever the program happens to be)
                         crop = xyzpy.load_crops(tmp)[name]
                         ctx.count("reloads_through_load_crops")
-                    elif r_ < 0.6:
+                    elif r_ < 0.6 or nosave:
                         crop = xyzpy.Crop(name=name, parent_dir=tmp)
                     else:
                         # re-created by the same constructor call (re-running the script that made it)
@@ -272,6 +282,8 @@ def run_case(ctx, case):
                     ids = [i]
                     if op == "grow":
                         crop.grow(i)
+                    elif nosave:
+                        xyzpy.grow(i, crop=crop, fn=fn, verbosity=0)
                     else:
                         xyzpy.grow(i, crop=crop, verbosity=0)
                 elif op == "grow_subset":
@@ -298,7 +310,7 @@ def run_case(ctx, case):
                     ctx.count("failed_grows_%s" % ("iteration_protocol_exception" if fail_exc.startswith("Stop") else "ordinary_exception"))
                     ctx.count("failed_grows")
                     try:
-                        if rng.random() < 0.3:
+                        if rng.random() < 0.3 and not nosave:
                             # each batch grown by the module-level grow() with workers INSIDE the batch (what an array job
                             # generated with num_workers= runs): a failing setting must fail the batch just the same
                             ctx.count("failed_grows_with_workers_inside_the_batch")
@@ -313,6 +325,9 @@ def run_case(ctx, case):
                                 # before the call log is read
                                 from joblib.externals.loky import get_reusable_executor
                                 get_reusable_executor().shutdown(wait=True)
+                        elif nosave:
+                            for i_ in ids:
+                                xyzpy.grow(i_, crop=crop, fn=fn, verbosity=0)
                         else:
                             crop.grow(ids)
                     finally:
